@@ -24,13 +24,18 @@ REQUIRED = ["entries_injective", "einv_fresh", "bit_set_get", "bit_total", "serv
             "credential_never_panics", "revoked_forever_local", "revoke_effective", "revoked_forever_remote", "refresh_after_revocation_pins",
             "cache_sound", "status_only_from_named_list", "update_refuses_other_list", "fact_bitstring_arithmetic", "fact_constants",
             "fact_env_ok", "fact_status_list_url", "fact_entry_structure", "fact_revoke_and_credential_structure", "fact_status_verifier_structure",
-            "fact_register_and_verify_order"]
+            "fact_register_and_verify_order",
+            # wire layer (deepening round): NutsProofs.Props.C11Wire
+            "atoi_itoa_roundtrip", "atoi_fits_int", "index_strings_injective", "validated_entry_fields", "issued_entry_validates",
+            "validated_entry_never_atoi_error", "wire_entries_distinct", "fact_entry_validate_order", "fact_entry_literal_and_strconv_sites"]
 
 ENTRY_RE = re.compile(r"(n\d+/\S+/\d+) (\d+) wf=(\w+)")
 
 
 def scenario_ops(ops, i):
     """ops of the scenario containing line i, up to and including i (scenario = from the last reset)"""
+    if json.loads(ops[i]).get("op") == "wire":
+        return ops[i] + "\n"
     k = i
     while k > 0 and json.loads(ops[k]).get("op") != "reset":
         k -= 1
@@ -250,6 +255,28 @@ def oracle(ctx, ops, impl, max_index, min_left_min, max_age=900):
                 if bits != last_dl[(node, name)]:
                     report("C11:stored-list-differs-from-the-last-downloaded-list",
                            f"node {node} holds {sorted(bits)} for {name}; the list it downloaded last had {sorted(last_dl[(node, name)])}", i)
+        elif kind == "wire":
+            # independent reference of the spec of StatusList2021Entry.Validate / strconv.Atoi / strconv.Itoa (64-bit int)
+            stats["wire-cases"] += 1
+            f = dict(x.split("=", 1) for x in line.split()[1:] if "=" in x)
+            idx = op.get("idx", "")
+            ref = None
+            if re.fullmatch(r"[+-]?[0-9]+", idx, flags=re.A) and -2**63 <= int(idx) < 2**63:
+                ref = int(idx)
+            want_atoi = "err" if ref is None else str(ref)
+            if f.get("atoi") != want_atoi:
+                report("C11:status-list-index-misparsed", f"statusListIndex {idx!r}: Atoi gave {f.get('atoi')}, a 64-bit decimal parser gives {want_atoi}", i)
+            wellformed = (op.get("id", "") != op.get("raw", "") and op.get("type", "") == "StatusList2021Entry" and op.get("purpose", "") != ""
+                          and ref is not None and ref >= 0 and op.get("urlok", False))
+            if f.get("validate") == "ok" and not wellformed:
+                report("C11:malformed-status-entry-passes-validation", f"entry {ops[i][:300]} accepted by Validate", i)
+            if f.get("validate") != "ok" and wellformed:
+                report("C11:wellformed-status-entry-refused", f"entry {ops[i][:300]}: {f.get('validate')}", i)
+            stats["wire-validate-" + f.get("validate", "?").replace("err:", "")] += 1
+            if f.get("itoa") != str(op.get("n", 0)) or f.get("rt") != "ok":
+                report("C11:status-list-index-print-parse-round-trip", f"n={op.get('n', 0)}: {line[:200]}", i)
+            if f.get("intsize") != "64":
+                report("C11:int-is-not-64-bit", line[:200], i)
         elif kind == "bits":
             stats["bitstring-cases"] += 1
             if "rt=ok" not in line:
@@ -563,7 +590,7 @@ def run_verifier_harness(ctx):
 
 def run(ctx):
     facts = ctx.facts()
-    thms = ctx.build_and_audit(["NutsProofs.Props.C11"])
+    thms = ctx.build_and_audit(["NutsProofs.Props.C11", "NutsProofs.Props.C11Wire"])
     for r in REQUIRED:
         if not any(t.endswith("Props." + r) for t in thms):
             ctx.oblige("thm-present:" + r, False, "theorem missing or its module does not build")
